@@ -18,9 +18,6 @@ open NV NV.Disc
 
 /-! ### tie to the source -/
 
-/-- facts regenerated from discovery/util.go and discovery/mdns.go on every check: the
-index used by the shifting `copy` of appendUniq, the table `removeOldestEntry` reads the evicted
-name's addresses from, and the spelling test before `removeEntry`. -/
 /-- **C18 (regenerated)**: the table update the mDNS receive loop performs for one (address, name)
 pair of a packet — the loop body the `mdnsops` correspondence area runs a copy of, with the cap as
 a parameter — is, statement by statement, the one in the source: validity filter, lazily created
@@ -32,6 +29,9 @@ theorem gen_mdns_ingest_agree :
       "  lowerASCIIBytes(h)", "  key := absDomainName(h)", "  addEntry(r.addrs, addr, name)",
       "  addEntry(r.names, key, addr)", "  for len(r.names) > mdnsMaxEntries", "    r.removeOldestEntry()"] := by decide
 
+/-- facts regenerated from discovery/util.go and discovery/mdns.go on every check: the
+index used by the shifting `copy` of appendUniq, the table `removeOldestEntry` reads the evicted
+name's addresses from, and the spelling test before `removeEntry`. -/
 theorem gen_discovery_agree :
     Gen.appendUniqShift = ShiftIdx.pos ∧ Gen.evictReadsNames = true ∧ Gen.evictFoldsSpelling = true := by decide
 
